@@ -10,7 +10,7 @@ assumed on; the `Props` files instantiate them with the generated `Miros.Gen.cfg
 namespace Miros.Hsm
 
 /-- the outward search of `dispatch` against the checked `offersC` -/
-theorem searchLoop_specC (c : Chart) (n : Nat) : ∀ (cur : St) (k : Ctx),
+theorem searchLoop_specC (c : Chart) (hf : ∀ s, c.fall s = false) (n : Nat) : ∀ (cur : St) (k : Ctx),
     (offersC c n cur = none → ∃ k', searchLoop c n cur k = (.bad, k')) ∧
     (∀ l a, offersC c n cur = some (l, a) →
       ∃ f k', searchLoop c n cur k = (f, k') ∧ actions k'.log = actions k.log ++ l ∧
@@ -60,7 +60,7 @@ theorem searchLoop_specC (c : Chart) (n : Nat) : ∀ (cur : St) (k : Ctx),
         cases ho : offersC c n p with
         | none =>
           obtain ⟨k', hk⟩ := ih1 ho
-          exact ⟨k', (by simp only [searchLoop, hr]; exact hk)⟩
+          exact ⟨k', (by simp only [searchLoop, hr, hf, Bool.false_eq_true, if_false]; exact hk)⟩
         | some la => simp [offersC, hr, ho] at e
       · intro l an e
         cases ho : offersC c n p with
@@ -70,7 +70,7 @@ theorem searchLoop_specC (c : Chart) (n : Nat) : ∀ (cur : St) (k : Ctx),
           simp only [offersC, hr, ho, Option.some.injEq, Prod.mk.injEq] at e
           obtain ⟨rfl, rfl⟩ := e
           obtain ⟨f, k', hk, h1, h2, h3, h4⟩ := ih2 l' a' ho
-          refine ⟨f, k', (by simp only [searchLoop, hr]; exact hk), (by rw [h1]; simp), h2, h3, ?_⟩
+          refine ⟨f, k', (by simp only [searchLoop, hr, hf, Bool.false_eq_true, if_false]; exact hk), (by rw [h1]; simp), h2, h3, ?_⟩
           · intro S T h
             obtain ⟨g1, g2, g3, g4, g5⟩ := h4 S T h
             exact ⟨g1, g2, g3, g4.trans (List.suffix_cons a p), g5⟩
@@ -81,7 +81,7 @@ theorem searchLoop_specC (c : Chart) (n : Nat) : ∀ (cur : St) (k : Ctx),
         cases ho : offersC c n p with
         | none =>
           obtain ⟨k', hk⟩ := ih1 ho
-          exact ⟨k', (by simp only [searchLoop, hr]; exact hk)⟩
+          exact ⟨k', (by simp only [searchLoop, hr, hf, Bool.false_eq_true, if_false]; exact hk)⟩
         | some la => simp [offersC, hr, ho] at e
       · intro l an e
         cases ho : offersC c n p with
@@ -91,7 +91,7 @@ theorem searchLoop_specC (c : Chart) (n : Nat) : ∀ (cur : St) (k : Ctx),
           simp only [offersC, hr, ho, Option.some.injEq, Prod.mk.injEq] at e
           obtain ⟨rfl, rfl⟩ := e
           obtain ⟨f, k', hk, h1, h2, h3, h4⟩ := ih2 l' a' ho
-          refine ⟨f, k', (by simp only [searchLoop, hr]; exact hk), (by rw [h1]; simp), h2, h3, ?_⟩
+          refine ⟨f, k', (by simp only [searchLoop, hr, hf, Bool.false_eq_true, if_false]; exact hk), (by rw [h1]; simp), h2, h3, ?_⟩
           · intro S T h
             obtain ⟨g1, g2, g3, g4, g5⟩ := h4 S T h
             exact ⟨g1, g2, g3, g4.trans (List.suffix_cons a p), g5⟩
@@ -115,7 +115,8 @@ theorem boundary_suffix_left (S T : St) : boundary S T <:+ S := by
   · exact lca_suffix_left S T
 
 /-- **dispatch, checked**: for the switches `resync` and `drillGuard` on -/
-theorem dispatch_checked (c : Chart) (g : Cfg) (hr : g.resync = true) (hd : g.drillGuard = true)
+theorem dispatch_checked (c : Chart) (hf : ∀ s, c.fall s = false) (g : Cfg) (hr : g.resync = true)
+    (hd : g.drillGuard = true)
     (hdepth : ∀ s t, c.init s = some t → t.length ≤ c.depth)
     (htop : ∀ s n t, c.react s n = .tran t → t ≠ [])
     (cur : St) (n : Nat) :
@@ -123,7 +124,7 @@ theorem dispatch_checked (c : Chart) (g : Cfg) (hr : g.resync = true) (hd : g.dr
     | some sr => ∃ r, dispatch c g cur n = .ok r ∧ actions r.log = sr.log ∧
                       r.state = sr.state ∧ r.temp = sr.state
     | none => ∃ l, dispatch c g cur n = .raise l := by
-  obtain ⟨hs1, hs2⟩ := searchLoop_specC c n cur { temp := cur, log := [] }
+  obtain ⟨hs1, hs2⟩ := searchLoop_specC c hf n cur { temp := cur, log := [] }
   cases ho : offersC c n cur with
   | none =>
     obtain ⟨k', hk⟩ := hs1 ho
@@ -146,8 +147,8 @@ theorem dispatch_checked (c : Chart) (g : Cfg) (hr : g.resync = true) (hd : g.dr
       obtain ⟨rfl, hT, hS, hsuf, hreact⟩ := h3 S T rfl
       have hTne : T ≠ [] := htop S n T hreact
       obtain ⟨pre, rfl⟩ := hsuf
-      obtain ⟨k1, he, hl1⟩ := exitWalk_spec c S pre k
-      obtain ⟨o, ht, hmx, m, hm, hip, hdrop, hbuf, hl2⟩ := trans_spec c T S (pre ++ S) k1 hTne hS
+      obtain ⟨k1, he, hl1⟩ := exitWalk_spec c hf S pre k
+      obtain ⟨o, ht, hmx, m, hm, hip, hdrop, hbuf, hl2⟩ := trans_spec c hf T S (pre ++ S) k1 hTne hS
       obtain ⟨ip, tp, mx, k2⟩ := o
       simp only at hmx hip hdrop hbuf hl2
       subst hip
@@ -156,7 +157,7 @@ theorem dispatch_checked (c : Chart) (g : Cfg) (hr : g.resync = true) (hd : g.dr
         rw [← hdrop]; exact pathUp_reverse_drop T m hm
       have hex : pathUp (boundary S T) (pre ++ S) =
           pathUp S (pre ++ S) ++ pathUp (boundary S T) S := pathUp_append (boundary_suffix_left S T) pre
-      obtain ⟨d1, d2⟩ := drill_spec c g hd hdepth (c.depth + 1) T tp (tp.length - 1)
+      obtain ⟨d1, d2⟩ := drill_spec c hf g hd hdepth (c.depth + 1) T tp (tp.length - 1)
         { temp := T, log := k2.log ++ (downs T m).map (⟨·, Sig.entry⟩) } hTne (by omega) (by omega) (by omega)
       have hdisp : dispatch c g (pre ++ S) n =
           match drill c g (c.depth + 1) T tp (tp.length - 1)
@@ -182,14 +183,14 @@ theorem dispatch_checked (c : Chart) (g : Cfg) (hr : g.resync = true) (hd : g.dr
 
 /-- **start_at, checked**: for the switch `initGuard` on.  The side condition `hd` is needed:
 with `c.depth = 0` and `c.init s = some []` the fuel `c.depth + 1` is exhausted (see report). -/
-theorem start_checked (c : Chart) (g : Cfg) (hg : g.initGuard = true)
+theorem start_checked (c : Chart) (hf : ∀ s, c.fall s = false) (g : Cfg) (hg : g.initGuard = true)
     (hdepth : ∀ s t, c.init s = some t → t.length ≤ c.depth)
     (s : St) (hs : s ≠ []) (hd : 0 < c.depth ∨ c.init s = none) :
     match specStartC c s with
     | some sr => ∃ r, startAt c g s = .ok r ∧ actions r.log = sr.log ∧
                       r.state = sr.state ∧ r.temp = sr.state ∧ ∀ x ∈ r.log, x.sig ≠ .exit
     | none => ∃ l, startAt c g s = .raise l := by
-  obtain ⟨i1, i2⟩ := initLoop_spec c g hg hdepth (c.depth + 1) [] [[]] 0 { temp := s, log := [] }
+  obtain ⟨i1, i2⟩ := initLoop_spec c hf g hg hdepth (c.depth + 1) [] [[]] 0 { temp := s, log := [] }
     (by simp) (by omega)
     (by
       rcases hd with h | h
